@@ -119,7 +119,7 @@ static Json gen_c11(uint64_t seed, long i, std::vector<Format*> const& fmts)
             o.set("bytes", bs);
         }
         else if (fk < 91) { o.set("f", "digits"); o.set("off", (long long)r.below(n)); o.set("len", (int)r.below(64)); o.set("d", (int)r.below(10)); }
-        else if (fk < 95) { o.set("f", "eio"); o.set("k", (int)r.below(12)); }
+        else if (fk < 95) { o.set("f", "eio"); o.set("k", (int)r.below(12)); if (r.chance(1, 2)) o.set("sticky", 1); }
         else if (fk < 98) { o.set("f", "seekfail"); o.set("k", (int)r.below(6)); }
         else { o.set("f", "noseek"); }
         ops.push(o);
@@ -134,6 +134,15 @@ static Json gen_devspec(Rng& r, Format* f, bool for_write)
     Json d = Json::object();
     d.set("dev", r.pick(f->devices));
     d.set("bufsz", r.pick({-1, -1, 0, 1, 7, 64, 512, 4096}));
+    std::string dk = d.str("dev");
+    bool stream_like = dk == "FILE" || dk == "istream";
+    // legal but unusual devices: earlier output in the destination, devices that cannot seek
+    bool un1 = r.chance(1, 5), un2 = r.chance(1, 8);
+    int pre = (int)r.pick({1, 7, 54, 100, 4097});
+    // (not for TIFF: libtiffxx's TIFFStreamOpen, to which gil hands the ostream, does not produce a readable file when the
+    // stream is not at position 0 - reproduced with a plain std::stringstream outside gil; DESIGN.md 9.3)
+    if (for_write && stream_like && un1 && f->name != "tiff") d.set("pre", pre);
+    if (stream_like && un2 && f->name != "tiff") d.set("noseek", 1);
     if (!for_write)
     {
         unsigned sk = (unsigned)r.below(10);
